@@ -313,6 +313,7 @@ package raft
 //@   ensures [config] r.configuration == next
 //@   ensures [I6b] forall fid string :: fid in r.followers ==> r.followers[fid] != nil
 //@   ensures [state] r.state == old(r.state) || (old(r.state) == Leader && r.state == Follower)
+//@   ensures [stepdown-on-removal] !(r.id in next.Members) ==> r.state != Leader
 //@   ensures [I11] r.operationManager != nil && r.operationManager.leaderLease != nil && r.operationManager.pendingReplicated != nil && r.operationManager.pendingReadOnly != nil && (forall o *Operation :: o in r.operationManager.pendingReadOnly ==> o != nil)
 //@   ensures [answered-mono] forall c int :: old(answered[c]) ==> answered[c]
 //@   ensures [clock] now >= old(now)
